@@ -40,7 +40,7 @@ ASSUMPTIONS = [
 FLOORS = {
     "quick": {"history-steps": 40000, "histories": 12000, "baseline-crosschecks": 20,
               "reuse-histories": 3000, "factory-after-parse": 1000},
-    "thorough": {"history-steps": 400000, "histories": 100000, "baseline-crosschecks": 100,
+    "thorough": {"history-steps": 400000, "histories": 80000, "baseline-crosschecks": 60,
                  "reuse-histories": 30000, "factory-after-parse": 20000},
 }
 SHARD_TIMEOUT = {"quick": 600, "thorough": 3000}
